@@ -1,8 +1,10 @@
 package main
 
 import (
+	"context"
 	"fmt"
 	"os"
+	"os/exec"
 	"path/filepath"
 	"regexp"
 	"strings"
@@ -73,4 +75,34 @@ func boundedC15Parser(r *run) {
 		r.extraVio = append(r.extraVio, violation{Obligation: "bounded/parser-half", Detail: "bounded harness failed to run:\n" + out})
 	}
 	r.bounded = append(r.bounded, entry)
+}
+
+var reExt = regexp.MustCompile(`(?m)^EXTCHECK (.*) cases=(\d+) (ok|FAIL.*)$`)
+
+// boundedExternals runs the bounded validation of assumed external contracts (/verif/extcheck).
+func boundedExternals(tests ...string) func(*run) {
+	return func(r *run) {
+		ctx, cancel := context.WithTimeout(context.Background(), 5*time.Minute)
+		defer cancel()
+		cmd := exec.CommandContext(ctx, "go", "test", "./extcheck", "-count=1", "-v", "-run", "^("+strings.Join(tests, "|")+")$")
+		cmd.Dir = verifDir
+		cmd.Env = append(os.Environ(), "GOFLAGS=-mod=mod", "GOPROXY=off", "GOSUMDB=off", "GOTOOLCHAIN=local")
+		out, _ := cmd.CombinedOutput()
+		ms := reExt.FindAllStringSubmatch(string(out), -1)
+		if len(ms) == 0 {
+			r.extraVio = append(r.extraVio, violation{Obligation: "bounded/externals", Detail: "the bounded validation of assumed external contracts did not run:\n" + string(out)})
+			return
+		}
+		for _, m := range ms {
+			entry := map[string]any{"what": "assumed contract of " + m[1] + " against the real Go function", "label": "bounded", "bound": "exhaustive over the small universe in /verif/extcheck/extcheck_test.go", "cases": m[2], "result": m[3]}
+			r.bounded = append(r.bounded, entry)
+			if m[3] != "ok" {
+				// an ASSUMPTION of the proof does not hold on the real dependency: reported, with the failing case
+				p := filepath.Join(verifDir, "replays", r.prop, "bounded_externals.txt")
+				os.MkdirAll(filepath.Dir(p), 0o755)
+				os.WriteFile(p, []byte("assumed external contract refuted by the bounded validation: "+m[1]+": "+m[3]+"\ncommand: (cd /verif && go test ./extcheck -v)\n"), 0o644)
+				r.extraVio = append(r.extraVio, violation{Obligation: "bounded/externals/" + m[1], Detail: m[3], Replay: p, Input: true})
+			}
+		}
+	}
 }
